@@ -8,7 +8,7 @@ from vt import detsched as ds, aosim
 ID = 'C05'
 ENGINE = 'detsched'
 TECHNIQUE = 'runtime monitoring under a deterministic cooperative scheduler: bounded-progress monitor (fair round-robin suffix, step budget) and exact deadlock detection at quiescence'
-RULE = ('a started ActiveObject and 1-4 poster threads x 1-6 unique-id events (fifo/lifo mixed, handlers that post further events), all real '
+RULE = ('a started ActiveObject (spied or not, instrumented or not, live spy/trace output on in a share of the spied runs) and 1-4 poster threads x 1-6 unique-id events (fifo/lifo mixed, handlers that post further events), all real '
         'threads run one at a time by detsched with yield points at every line of miros/activeobject.py and of the queue functions of '
         'miros/hsm.py and around every Queue/Thread primitive; seeded random or PCT schedule prefix, then FAIR round-robin; every post must '
         'return and the system must reach quiescence (posters finished, consumer waiting, queue empty) within B = 40000 + 3000 x events '
@@ -17,7 +17,7 @@ RULE = ('a started ActiveObject and 1-4 poster threads x 1-6 unique-id events (f
         'runs with >= 2 posters or >= 1 handler post')
 CASES = {'quick': 800, 'thorough': 60000}
 BUDGET = {'quick': 50, 'thorough': 300}
-REQUIRE = {'runs': 300, 'runs_with_racing_posters': 100, 'poster_between_token_put_and_append': 20, 'consumer_between_get_and_popleft': 20}
+REQUIRE = {'runs': 300, 'runs_with_racing_posters': 100, 'runs_with_live_output_on': 40, 'poster_between_token_put_and_append': 20, 'consumer_between_get_and_popleft': 20}
 ASSUME = ['"eventually" is restated as bounded progress under a fair suffix; unbounded liveness is out of reach of a finite run',
           'switches happen at line starts of the focus files and around (never inside) calls of real primitives']
 ANNOUNCE_CASES = True
@@ -124,12 +124,17 @@ def run_case(ctx, n):
   rng = ctx.rng('case', n)
   plans, fan, nev = gen_plan(rng)
   spied, instrumented = rng.random() < 0.5, rng.random() < 0.7
-  result, s, hist, ao = run_scenario(ctx, rng, plans, fan, nev, spied, instrumented)
+  extras = None
+  if spied and instrumented and rng.random() < 0.45:
+    # live spy / live trace output switched on: the consumer hands every line of a finished step to the writer thread
+    extras = {'live': (True, rng.random() < 0.5)}
+    ctx.count('runs_with_live_output_on')
+  result, s, hist, ao = run_scenario(ctx, rng, plans, fan, nev, spied, instrumented, extras=extras)
   ctx.count('runs')
   if len(plans) >= 2:
     ctx.count('runs_with_racing_posters')
   ctx.maxc('max_steps_of_a_completed_run', result.get('steps', 0))
-  wit = {'plans': plans, 'fan': fan, 'spied': spied, 'instrumented': instrumented, 'policy': s.policy, 'p_switch': s.p_switch,
+  wit = {'plans': plans, 'fan': fan, 'spied': spied, 'instrumented': instrumented, 'live_output': (extras or {}).get('live'), 'policy': s.policy, 'p_switch': s.p_switch,
          'rr_after': s.rr_after, 'switch_trail_tail': s.trail[-25:]}
   if len(plans) >= 2 or fan:
     ctx.distinct(s.signature())
@@ -145,6 +150,7 @@ def run_case(ctx, n):
   elif result['thread_exceptions']:
     ctx.violation('C05/exception-in-thread', 'a thread died: %r' % result['thread_exceptions'], wit)
   elif len(ao.locking_deque.deque) != 0:
-    ctx.count('other_property_disagreements')
+    ctx.violation('C05/quiescent-with-events-left', 'every poster has finished and no thread can run, but %d events are still queued (%d wake-up tokens): the system is not quiescent in the sense of the statement (consumer waiting on an EMPTY queue)' % (
+      len(ao.locking_deque.deque), ds._q.Queue.qsize(ao.locking_deque.locking_queue)), wit)
   if n < 2:
     ctx.sample({'plans': plans, 'fan': fan, 'steps': result.get('steps'), 'switches': result.get('switches'), 'trail_head': s.trail[:15]})
